@@ -984,8 +984,37 @@ pub fn run_binary(args: &[&str], stdin: Option<&[u8]>, cwd: &std::path::Path) ->
             let _ = si.write_all(data);
         }
     }
-    let out = child.wait_with_output().unwrap();
-    BinRun { code: out.status.code(), stdout: out.stdout, stderr: out.stderr }
+    collect_child(child)
+}
+
+/// read both streams of the child to their end, keeping at most 256 MiB of standard output and 64 MiB of standard
+/// error (the rest is drained and dropped: a program that writes without bound must not take the harness's memory)
+fn collect_child(mut child: std::process::Child) -> BinRun {
+    fn drain(mut r: impl std::io::Read, cap: usize) -> Vec<u8> {
+        let mut buf = vec![];
+        let mut chunk = vec![0u8; 1 << 16];
+        loop {
+            match r.read(&mut chunk) {
+                Ok(0) | Err(_) => break,
+                Ok(n) => {
+                    if buf.len() < cap {
+                        let take = n.min(cap - buf.len());
+                        buf.extend_from_slice(&chunk[..take]);
+                    }
+                }
+            }
+        }
+        buf
+    }
+    let so = child.stdout.take().unwrap();
+    let se = child.stderr.take().unwrap();
+    let (stdout, stderr) = std::thread::scope(|s| {
+        let h = s.spawn(move || drain(se, 64 << 20));
+        let out = drain(so, 256 << 20);
+        (out, h.join().unwrap_or_default())
+    });
+    let status = child.wait().unwrap();
+    BinRun { code: status.code(), stdout, stderr }
 }
 
 /// the same with file descriptor 0 closed in the child (not an empty pipe: no standard input at all)
@@ -999,8 +1028,7 @@ pub fn run_binary_stdin_closed(args: &[&str], cwd: &std::path::Path) -> BinRun {
             Ok(())
         });
     }
-    let out = cmd.spawn().expect("cannot run the aplang binary").wait_with_output().unwrap();
-    BinRun { code: out.status.code(), stdout: out.stdout, stderr: out.stderr }
+    collect_child(cmd.spawn().expect("cannot run the aplang binary"))
 }
 
 pub fn scratch_dir(tag: &str) -> std::path::PathBuf {
